@@ -1086,6 +1086,8 @@ def iterate(I, st, v):
             lazy_check(st, st.ghost.get(("lazy_src", v.id)))
             lazy_note(st, v, e.items)
             if e.__class__ is IterE:
+                if e.pending is not None:
+                    raise Unsupported("an iterator whose items raise when computed is consumed step by step")
                 if e.consumed:
                     raise Unsupported("an iterator object is consumed a second time (it is exhausted in Python)")
                 if e.free is not None:
